@@ -70,20 +70,23 @@ Definition static_ok (T : tables) (k c : cls) : bool :=
 Definition dyn_ok (T : tables) (kv c : cls) : bool := res_ok (check_type_coercible T false kv c).
 (* the class of a value conforming to a type whose head class is k *)
 Definition belowb (T : tables) (kv k : cls) : bool :=
-  cls_eqb k KAny || sub T kv k || (cls_eqb k CMulti && cls_eqb kv CList).
+  cls_eqb k KAny || sub T kv k || (cls_eqb k CMulti && sub T kv CList).
 Definition pathish_classes : list cls := [CStr; CPath; CFile FFile; CFile FText; CFile FDir].
+(* the builtin whose behaviour values of class kv have *)
+Definition shape_of_class (T : tables) (kv : cls) : cls :=
+  match kv with KSub n => match nth_error (t_subs T) n with Some b => b | None => kv end | _ => kv end.
 (* the constructor call [c(v)] cannot fail on a value of class kv (given a world that accepts every path) *)
-Definition ctor_safe (kv c : cls) : bool :=
+Definition ctor_safe (T : tables) (kv c : cls) : bool :=
   match c with
   | CBool | CInt | CFloat | CStr => true
-  | CPath | CFile _ => existsb (cls_eqb kv) pathish_classes
+  | CPath | CFile _ => existsb (cls_eqb (shape_of_class T kv)) pathish_classes
   | _ => false
   end.
 
 (* issubclass is transitive where the proof composes it *)
 Definition tc_trans (T : tables) : bool :=
   forallb (fun kv => forallb (fun k => forallb (fun c =>
-     implb (sub T kv k && sub T k c) (sub T kv c)) targets) scalar_bases) value_classes.
+     implb (sub T kv k && sub T k c) (sub T kv c)) targets) (scalar_bases ++ origins)) (value_classes T).
 (* a MultiInputObj field holds a plain list *)
 Definition tc_multi (T : tables) : bool := forallb (fun c => implb (sub T CMulti c) (sub T CList c)) targets.
 (* a Union source type is never coercible to a plain class (issubclass(typing.Union, ...) raises) *)
@@ -93,22 +96,25 @@ Definition tc_union (T : tables) : bool :=
 Definition tc_basic (T : tables) : bool :=
   forallb (fun k => forallb (fun c => forallb (fun kv =>
        implb (static_ok T k c && belowb T kv k)
-             (is_subclass T kv c || (dyn_ok T kv c && ctor_safe kv c))) value_classes) targets) static_classes.
+             (is_subclass T kv c || (dyn_ok T kv c && ctor_safe T kv c))) (value_classes T)) targets) static_classes.
 Definition tc_origin (T : tables) : bool :=
   forallb (fun k => forallb (fun o => forallb (fun kv =>
        implb (static_ok T k o && belowb T kv k && negb (cls_eqb k o))
-             (is_subclass T kv o || dyn_ok T kv o)) value_classes) origins) (origins ++ [CMulti]).
+             (is_subclass T kv o || dyn_ok T kv o)) (value_classes T)) origins) (origins ++ [CMulti]).
 Definition tc_notfs (T : tables) : bool := forallb (fun o => negb (sub T o KFileSet)) origins.
-(* no collection is an instance of a scalar class *)
+(* no collection(-shaped value) is an instance of a scalar class *)
 Definition tc_hash (T : tables) : bool :=
-  forallb (fun kv => forallb (fun c => negb (sub T kv c)) scalar_value_classes) origins.
+  forallb (fun kv => forallb (fun c => negb (sub T kv c)) scalar_value_classes) (classes_of_shapes T origins).
+(* an instance of a container class has that container's shape *)
+Definition tc_shape (T : tables) : bool :=
+  forallb (fun kv => forallb (fun o => implb (sub T kv o) (cls_eqb (shape_of_class T kv) o)) origins) (value_classes T).
 Definition tc_tuple (T : tables) : bool :=
   forallb (fun o => negb (sub T o CTuple)) [CList; CSet; CFrozenset; CDict; CMulti].
 Definition tc_dict (T : tables) : bool := negb (static_ok T CTuple CDict).
 
 Definition tables_c21 (T : tables) : bool :=
   tc_trans T && tc_multi T && tc_union T && tc_basic T && tc_origin T && tc_notfs T && tc_hash T && tc_tuple T
-  && tc_dict T.
+  && tc_dict T && tc_shape T.
 
 Section Static.
 Variable T : tables.
@@ -119,10 +125,10 @@ Hypothesis WT : forall f p, w_check W f p = None.
 
 Lemma tc_parts :
   tc_trans T = true /\ tc_multi T = true /\ tc_union T = true /\ tc_basic T = true /\ tc_origin T = true /\
-  tc_notfs T = true /\ tc_hash T = true /\ tc_tuple T = true /\ tc_dict T = true.
+  tc_notfs T = true /\ tc_hash T = true /\ tc_tuple T = true /\ tc_dict T = true /\ tc_shape T = true.
 Proof. pose proof TC as H. unfold tables_c21 in H. rewrite !andb_true_iff in H. tauto. Qed.
 
-Lemma h_trans kv k c : In kv value_classes -> In k scalar_bases -> In c targets ->
+Lemma h_trans kv k c : In kv (value_classes T) -> In k (scalar_bases ++ origins) -> In c targets ->
   sub T kv k = true -> sub T k c = true -> sub T kv c = true.
 Proof.
   intros Hkv Hk Hc H1 H2. destruct tc_parts as [H _]. unfold tc_trans in H.
@@ -142,9 +148,9 @@ Proof.
   rewrite forallb_forall in H. specialize (H _ Hc). now apply negb_true_iff in H.
 Qed.
 
-Lemma h_basic k c kv : In k static_classes -> In c targets -> In kv value_classes ->
+Lemma h_basic k c kv : In k static_classes -> In c targets -> In kv (value_classes T) ->
   static_ok T k c = true -> belowb T kv k = true ->
-  is_subclass T kv c = true \/ (dyn_ok T kv c = true /\ ctor_safe kv c = true).
+  is_subclass T kv c = true \/ (dyn_ok T kv c = true /\ ctor_safe T kv c = true).
 Proof.
   intros Hk Hc Hkv H1 H2. destruct tc_parts as [_ [_ [_ [H _]]]]. unfold tc_basic in H.
   rewrite forallb_forall in H. specialize (H _ Hk). rewrite forallb_forall in H. specialize (H _ Hc).
@@ -152,7 +158,7 @@ Proof.
   apply orb_true_iff in H. destruct H as [H|H]; [left; exact H|right; now apply andb_true_iff in H].
 Qed.
 
-Lemma h_origin k o kv : In k (origins ++ [CMulti]) -> In o origins -> In kv value_classes ->
+Lemma h_origin k o kv : In k (origins ++ [CMulti]) -> In o origins -> In kv (value_classes T) ->
   static_ok T k o = true -> belowb T kv k = true -> cls_eqb k o = false ->
   is_subclass T kv o = true \/ dyn_ok T kv o = true.
 Proof.
@@ -168,7 +174,7 @@ Proof.
   rewrite forallb_forall in H. specialize (H _ Ho). now apply negb_true_iff in H.
 Qed.
 
-Lemma h_hash kv c : In kv origins -> In c scalar_value_classes -> sub T kv c = false.
+Lemma h_hash kv c : In kv (classes_of_shapes T origins) -> In c scalar_value_classes -> sub T kv c = false.
 Proof.
   intros Hkv Hc. destruct tc_parts as [_ [_ [_ [_ [_ [_ [H _]]]]]]]. unfold tc_hash in H.
   rewrite forallb_forall in H. specialize (H _ Hkv). rewrite forallb_forall in H. specialize (H _ Hc).
@@ -182,7 +188,21 @@ Proof.
 Qed.
 
 Lemma h_dict : static_ok T CTuple CDict = false.
-Proof. destruct tc_parts as [_ [_ [_ [_ [_ [_ [_ [_ H]]]]]]]]. unfold tc_dict in H. now apply negb_true_iff in H. Qed.
+Proof. destruct tc_parts as [_ [_ [_ [_ [_ [_ [_ [_ [H _]]]]]]]]]. unfold tc_dict in H. now apply negb_true_iff in H. Qed.
+
+Lemma h_shape kv o : In kv (value_classes T) -> In o origins -> sub T kv o = true -> shape_of_class T kv = o.
+Proof.
+  intros Hkv Ho Hs. destruct tc_parts as [_ [_ [_ [_ [_ [_ [_ [_ [_ H]]]]]]]]]. unfold tc_shape in H.
+  rewrite forallb_forall in H. specialize (H _ Hkv). rewrite forallb_forall in H. specialize (H _ Ho).
+  rewrite Hs in H. now apply cls_eqb_eq.
+Qed.
+
+Lemma shape_class v : shape_of_class T (class_of T v) = base_class v.
+Proof.
+  destruct (class_of_cases T v) as [->|[n [-> Hn]]].
+  - pose proof (base_class_value v) as H. destruct (base_class v); try reflexivity. cbn in H. intuition discriminate.
+  - cbn. now rewrite Hn.
+Qed.
 
 (* ------------------------------------------------------------------ nothing but the file system raises a non-TypeError *)
 Lemma ctc_cls_err sac a b e : check_type_coercible T sac a b = Err e -> e = ETypeError.
@@ -244,9 +264,16 @@ Proof.
   destruct (check_coercible T sac v o) eqn:E; [discriminate|]. inversion 1; subst. eapply check_coercible_err; eassumption.
 Qed.
 
-Lemma build_noother c r : In c origins -> NoOther r -> NoOther (build c r).
+Lemma keep_noother o v items : NoOther (keep o v items).
+Proof.
+  unfold keep, NoOther. destruct o; try discriminate; destruct v as [| | | | | | | | | |k fr l0|]; try discriminate;
+    destruct fr; try discriminate; destruct (forallb hashable items); discriminate.
+Qed.
+
+Lemma build_noother c v inst r : In c origins -> NoOther r -> NoOther (build c v inst r).
 Proof.
   intros Hc Hr. unfold build. destruct r as [l|e]; [|intros He; inversion He; subst; now apply Hr].
+  destruct inst; [apply keep_noother|].
   apply construct_container_noother; [|apply in_or_app; now left].
   intros ->. cbn in Hc. intuition discriminate.
 Qed.
@@ -255,9 +282,8 @@ Lemma seq_noother sac o f v :
   In o origins -> (forall x, NoOther (f x)) -> NoOther (coerce_seq T sac o f v).
 Proof.
   intros Ho Hf. unfold coerce_seq.
-  destruct (enter T sac o v) as [cl|e] eqn:E; [|apply enter_err in E; subst; discriminate].
+  destruct (enter T sac o v) as [inst|e] eqn:E; [|apply enter_err in E; subst; discriminate].
   destruct (iter v) as [items|e] eqn:Ei; [|apply iter_err in Ei; subst; discriminate].
-  assert (cl = o) as -> by (eapply (enter_container T WF); [|exact E]; cbn in *; tauto).
   apply build_noother; [exact Ho|]. now apply map_res_noother.
 Qed.
 
@@ -290,7 +316,6 @@ Proof.
     destruct (enter T sac CTuple v) as [cl|e] eqn:E; [|apply enter_err in E; subst; discriminate].
     destruct (iter v) as [items|e] eqn:Ei; [|apply iter_err in Ei; subst; discriminate].
     destruct (Nat.eqb _ _); [|discriminate].
-    assert (cl = CTuple) as -> by (eapply (enter_container T WF); [|exact E]; cbn; tauto).
     apply build_noother; [cbn; tauto|]. apply zip_noother.
     rewrite Forall_forall in *. intros f Hf. apply in_map_iff in Hf. destruct Hf as [p [<- Hp]]. now apply IHts.
   - apply seq_noother; [cbn; tauto|exact IHa].
@@ -305,7 +330,7 @@ Proof.
     assert (NoOther (wrap1 (coerce T W sac a v))) as Hw.
     { unfold wrap1, NoOther. destruct (coerce T W sac a v) as [y|e] eqn:E; [discriminate|].
       intros He. inversion He; subst. now apply (IHa v). }
-    destruct (is_vstr v); [exact Hw|].
+    destruct (is_vstr T v); [exact Hw|].
     destruct (match iter v with Ok items => map_res (coerce T W sac a) items | Err e => Err e end) as [l|e] eqn:E;
       [discriminate|].
     destruct e; [exact Hw| |discriminate].
@@ -317,10 +342,10 @@ Qed.
 Lemma not_coll_hashable v : is_coll v = false -> hashable v = true.
 Proof. destruct v; cbn; try discriminate; reflexivity. Qed.
 
-Lemma is_instance_sub v c : c <> KAny -> is_instance T v c = sub T (class_of v) c.
+Lemma is_instance_sub v c : c <> KAny -> is_instance T v c = sub T (class_of T v) c.
 Proof.
-  intros Hc. unfold is_instance, is_subclass. pose proof (class_of_not_any v).
-  destruct c; try congruence; destruct (class_of v); try congruence; reflexivity.
+  intros Hc. unfold is_instance, is_subclass. pose proof (class_of_not_any T v).
+  destruct c; try congruence; destruct (class_of T v); try congruence; reflexivity.
 Qed.
 
 Lemma targets_not_any c : In c targets -> c <> KAny.
@@ -328,11 +353,14 @@ Proof. intros H ->. cbn in H. intuition discriminate. Qed.
 Lemma scalar_value_not_any c : In c scalar_value_classes -> c <> KAny.
 Proof. intros H ->. cbn in H. intuition discriminate. Qed.
 
+Lemma coll_class_in v : is_coll v = true -> In (class_of T v) (classes_of_shapes T origins).
+Proof. intros H. apply class_in_shapes. apply is_coll_shape in H. exact H. Qed.
+
 Lemma instance_scalar_not_coll v c :
   In c scalar_value_classes -> is_instance T v c = true -> is_coll v = false.
 Proof.
   intros Hc H. rewrite is_instance_sub in H by (now apply scalar_value_not_any).
-  destruct (is_coll v) eqn:E; [|reflexivity]. apply is_coll_class in E.
+  destruct (is_coll v) eqn:E; [|reflexivity]. apply coll_class_in in E.
   rewrite (h_hash _ _ E Hc) in H. discriminate.
 Qed.
 
@@ -346,39 +374,47 @@ Qed.
 Definition is_base (s : ty) : bool := match s with TBase _ => true | _ => false end.
 Definition is_union (s : ty) : bool := match s with TUnion _ => true | _ => false end.
 
-(* a value of a container type: its class, its items *)
-Lemma belowb_refl v : belowb T (class_of v) (class_of v) = true.
-Proof. unfold belowb. rewrite (sub_refl_value T WF v). now rewrite orb_true_r. Qed.
+Lemma py_isinstance_sub v o : o <> KAny -> py_isinstance T v o = true -> sub T (class_of T v) o = true.
+Proof. intros Ho H. unfold py_isinstance in H. destruct o; try exact H; congruence. Qed.
 
+Lemma belowb_sub kv k : sub T kv k = true -> belowb T kv k = true.
+Proof. intros H. unfold belowb. rewrite H. now rewrite orb_true_r. Qed.
+
+(* a value of a container type: its class, its items *)
 Lemma conforms_coll s v :
   is_base s = false -> is_union s = false -> conforms T s v ->
-  is_coll v = true /\ iter v = Ok (items_of v) /\ belowb T (class_of v) (origin_of s) = true /\
+  is_coll v = true /\ iter v = Ok (items_of v) /\ belowb T (class_of T v) (origin_of s) = true /\
   Forall (fun x => exists a, In a (fst (targs s)) /\ conforms T a x) (items_of v).
 Proof.
   intros Hb Hu Hc.
-  destruct s as [c|a|ts|a|k x|fr a|ts|a]; try discriminate; cbn [conforms] in Hc.
-  - destruct Hc as [l [-> Hl]]. split; [reflexivity|]. split; [reflexivity|]. split; [apply (belowb_refl (VList l))|].
+  destruct s as [c|a|ts|a|k x|fr a|ts|a]; try discriminate; cbn [conforms] in Hc; destruct Hc as [Hi Hc].
+  - destruct Hc as [g [l [-> Hl]]]. split; [reflexivity|]. split; [reflexivity|].
+    split; [apply belowb_sub, py_isinstance_sub; [discriminate|exact Hi]|].
     cbn. eapply Forall_impl; [|exact Hl]. intros x Hx. exists a. split; [now left|exact Hx].
-  - destruct Hc as [l [-> Hl]]. split; [reflexivity|]. split; [reflexivity|]. split; [apply (belowb_refl (VTuple l))|].
-    cbn [items_of targs fst]. clear Hb Hu. revert l Hl. induction ts as [|a ts IH]; intros [|x l] Hl; try contradiction; [constructor|].
+  - destruct Hc as [g [l [-> Hl]]]. split; [reflexivity|]. split; [reflexivity|].
+    split; [apply belowb_sub, py_isinstance_sub; [discriminate|exact Hi]|].
+    cbn [items_of targs fst]. clear Hb Hu Hi. revert l Hl. induction ts as [|a ts IH]; intros [|x l] Hl; try contradiction; [constructor|].
     destruct Hl as [Hx Hl]. constructor.
     + exists a. split; [now left|exact Hx].
     + eapply Forall_impl; [|apply IH, Hl]. intros y [b [Hb' Hy]]. exists b. split; [now right|exact Hy].
-  - destruct Hc as [l [-> Hl]]. split; [reflexivity|]. split; [reflexivity|]. split; [apply (belowb_refl (VTuple l))|].
+  - destruct Hc as [g [l [-> Hl]]]. split; [reflexivity|]. split; [reflexivity|].
+    split; [apply belowb_sub, py_isinstance_sub; [discriminate|exact Hi]|].
     cbn. eapply Forall_impl; [|exact Hl]. intros x Hx. exists a. split; [now left|exact Hx].
-  - destruct Hc as [kv [-> Hl]]. split; [reflexivity|]. split; [reflexivity|]. split; [apply (belowb_refl (VDict kv))|].
-    cbn [items_of targs fst]. induction Hl as [|[a b] kv [Ha _] _ IH]; cbn; constructor; [|exact IH].
-    exists k. split; [now left|exact Ha].
-  - destruct Hc as [l [-> Hl]]. split; [reflexivity|]. split; [reflexivity|].
-    split; [destruct fr; [apply (belowb_refl (VSet true l))|apply (belowb_refl (VSet false l))]|].
+  - destruct Hc as [g [kv [-> Hl]]]. split; [reflexivity|]. split; [reflexivity|].
+    split; [apply belowb_sub, py_isinstance_sub; [discriminate|exact Hi]|].
+    cbn [items_of targs fst]. clear Hi Hb Hu. induction Hl as [|[a b] kv [Ha _] _ IH]; cbn; [constructor|].
+    constructor; [|exact IH]. exists k. split; [now left|exact Ha].
+  - destruct Hc as [g [l [-> Hl]]]. split; [reflexivity|]. split; [reflexivity|].
+    split; [apply belowb_sub, py_isinstance_sub; [destruct fr; discriminate|exact Hi]|].
     cbn. eapply Forall_impl; [|exact Hl]. intros x Hx. exists a. split; [now left|exact Hx].
-  - destruct Hc as [l [-> Hl]]. split; [reflexivity|]. split; [reflexivity|].
-    split; [unfold belowb; cbn; apply orb_true_r|].
+  - destruct Hc as [g [l [-> Hl]]]. split; [reflexivity|]. split; [reflexivity|].
+    split; [unfold belowb; cbn [origin_of cls_eqb]; rewrite (py_isinstance_sub _ CList ltac:(discriminate) Hi);
+            cbn; apply orb_true_r|].
     cbn. eapply Forall_impl; [|exact Hl]. intros x Hx. exists a. split; [now left|exact Hx].
 Qed.
 
 Lemma conforms_below s v :
-  is_union s = false -> conforms T s v -> belowb T (class_of v) (origin_of s) = true.
+  is_union s = false -> conforms T s v -> belowb T (class_of T v) (origin_of s) = true.
 Proof.
   intros Hu Hc. destruct (is_base s) eqn:Hb.
   - destruct s; try discriminate. cbn [conforms] in Hc. unfold belowb, py_isinstance in *. cbn [origin_of].
@@ -414,45 +450,51 @@ Lemma subclass_ty_instance c (Hc : In c targets) :
   forall s v, scalar_based s = true -> is_subclass_ty T s c = true -> conforms T s v -> is_instance T v c = true.
 Proof.
   pose proof (targets_not_any _ Hc) as Hn.
+  assert (forall v o, In o origins -> py_isinstance T v o = true -> sub T o c = true ->
+                      sub T (class_of T v) c = true) as Hcont.
+  { intros v o Ho Hi Hs. eapply (h_trans _ o); [apply class_of_value|apply in_or_app; now right|exact Hc| |exact Hs].
+    apply py_isinstance_sub; [|exact Hi]. intros ->. cbn in Ho. intuition discriminate. }
   induction s as [k|a IHa|ts IHts|a IHa|k x IHk IHx|fr a IHa|ts IHts|a IHa] using ty_ind';
     intros v Hs H Hv; rewrite is_subclass_ty_unfold in H by exact Hn; rewrite is_instance_sub by exact Hn.
   - destruct (cls_eqb k KAny) eqn:Ek; [apply cls_eqb_eq in Ek; subst; discriminate|].
     assert (sub T k c = true) as H' by (destruct k; try exact H; discriminate).
     cbn [conforms] in Hv. unfold py_isinstance in Hv.
-    assert (sub T (class_of v) k = true) as Hv' by (destruct k; try exact Hv; discriminate).
+    assert (sub T (class_of T v) k = true) as Hv' by (destruct k; try exact Hv; discriminate).
     cbn [scalar_based] in Hs. apply existsb_exists in Hs. destruct Hs as [k' [Hk' Heq]]. apply cls_eqb_eq in Heq. subst k'.
-    eapply h_trans; eauto using class_of_value.
-  - destruct Hv as [l [-> _]]. exact H.
-  - destruct Hv as [l [-> _]]. exact H.
-  - destruct Hv as [l [-> _]]. exact H.
-  - destruct Hv as [kv [-> _]]. exact H.
-  - destruct Hv as [l [-> _]]. destruct fr; exact H.
+    eapply (h_trans _ k); [apply class_of_value|apply in_or_app; now left|exact Hc|exact Hv'|exact H'].
+  - destruct Hv as [Hi _]. apply (Hcont v CList); [cbn; tauto|exact Hi|exact H].
+  - destruct Hv as [Hi _]. apply (Hcont v CTuple); [cbn; tauto|exact Hi|exact H].
+  - destruct Hv as [Hi _]. apply (Hcont v CTuple); [cbn; tauto|exact Hi|exact H].
+  - destruct Hv as [Hi _]. apply (Hcont v CDict); [cbn; tauto|exact Hi|exact H].
+  - destruct Hv as [Hi _]. destruct fr; [apply (Hcont v CFrozenset)|apply (Hcont v CSet)]; try exact Hi; try exact H; cbn; tauto.
   - apply conforms_union_inv in Hv. destruct Hv as [a [Ha Hv]].
     rewrite forallb_forall in H. cbn [scalar_based] in Hs. rewrite forallb_forall in Hs. rewrite Forall_forall in IHts.
     rewrite <- is_instance_sub by exact Hn. eapply IHts; eauto.
-  - destruct Hv as [l [-> _]]. cbn [origin_of] in H. cbn. now apply h_multi.
+  - destruct Hv as [Hi _]. cbn [origin_of] in H. apply (Hcont v CList); [cbn; tauto|exact Hi|now apply h_multi].
 Qed.
 
-Lemma ctor_safe_nr v c : ctor_safe (class_of v) c = true -> NR (construct W c v).
+Lemma ctor_safe_nr v c : ctor_safe T (class_of T v) c = true -> NR (construct W c v).
 Proof.
-  intros H. destruct c; cbn in H; try (exfalso; discriminate H); cbn [construct].
+  intros H. destruct c; cbn [ctor_safe] in H; try (exfalso; discriminate H); cbn [construct].
   - apply NR_ok.
   - destruct v; try apply NR_ok; apply NR_unm.
   - destruct (num_of v); [apply NR_ok|apply NR_unm].
   - destruct (py_str v); [apply NR_ok|apply NR_unm].
-  - destruct v as [| | | | | | |f'| | |fr|]; try destruct fr; cbn in H; try discriminate; apply NR_ok.
-  - assert (exists s, is_pathish v = Some s) as [s ->].
-    { destruct v as [| | | | | | |f'| | |fr|]; try destruct fr; cbn in H; try discriminate; cbn; eauto. }
+  - rewrite shape_class in H.
+    destruct v as [| | | | | | |f'| | |k fr|]; try destruct fr; cbn in H; try discriminate; apply NR_ok.
+  - rewrite shape_class in H.
+    assert (exists s, is_pathish v = Some s) as [s ->].
+    { destruct v as [| | | | | | |f'| | |k fr|]; try destruct fr; cbn in H; try discriminate; cbn; eauto. }
     unfold fileset_ctor. cbn [map dedupe_str existsb rev app]. rewrite WT. cbn. apply NR_ok.
 Qed.
 
 Lemma dyn_basic_nr v c :
-  dyn_ok T (class_of v) c = true -> ctor_safe (class_of v) c = true -> NR (coerce_basic T W false c v).
+  dyn_ok T (class_of T v) c = true -> ctor_safe T (class_of T v) c = true -> NR (coerce_basic T W false c v).
 Proof.
   intros Hd Hs. unfold coerce_basic. destruct (is_instance T v c); [apply NR_ok|].
   assert (exists u, check_coercible T false v c = Ok u) as [u ->].
   { unfold check_coercible. destruct (_ && _); [eauto|]. unfold dyn_ok in Hd.
-    destruct (check_type_coercible T false (class_of v) c); [eauto|discriminate]. }
+    destruct (check_type_coercible T false (class_of T v) c); [eauto|discriminate]. }
   now apply ctor_safe_nr.
 Qed.
 
@@ -491,13 +533,25 @@ Proof.
     cbn [conforms] in Hv. unfold coerce_basic. rewrite <- (py_isinstance_is_instance T v c), Hv. apply NR_ok. }
   assert (src_of s = SCls (origin_of s)) as Hsrc by (destruct s; try discriminate; reflexivity).
   rewrite Hsrc in H. pose proof (static_ok_of _ _ _ eq_refl H) as Hst.
-  destruct (h_basic (origin_of s) c (class_of v) (origin_static s Hs Hu) Hc (class_of_value v) Hst
+  destruct (h_basic (origin_of s) c (class_of T v) (origin_static s Hs Hu) Hc (class_of_value T v) Hst
               (conforms_below s v Hu Hv)) as [Hi|[Hd Hctor]].
   - unfold coerce_basic, is_instance. rewrite Hi. apply NR_ok.
   - now apply dyn_basic_nr.
 Qed.
 
 (* ------------------------------------------------------------------ whatever is stored under a hashable_ty type is hashable *)
+Lemma zip_res_all (g : ty -> val -> result val) (Q : val -> Prop) : forall ts items l,
+  Forall (fun a => forall x y, g a x = Ok y -> Q y) ts -> zip_res (map g ts) items = Ok l -> Forall Q l.
+Proof.
+  induction ts as [|a ts IH]; intros items l HF H; cbn in H.
+  - inversion H; constructor.
+  - destruct items as [|x items]; [inversion H; constructor|].
+    inversion HF as [|? ? Ha Hts]; subst.
+    destruct (g a x) as [y|] eqn:E; [|discriminate].
+    destruct (zip_res (map g ts) items) as [ys|] eqn:E2; [|discriminate]. inversion H; subst.
+    constructor; [eapply Ha; exact E|eapply IH; eauto].
+Qed.
+
 Lemma hashable_out sac : forall a, hashable_ty a = true ->
   forall x y, coerce T W sac a x = Ok y -> hashable y = true.
 Proof.
@@ -506,36 +560,25 @@ Proof.
   - apply existsb_exists in Ha. destruct Ha as [c' [Hc' Heq]]. apply cls_eqb_eq in Heq. subst c'.
     apply not_coll_hashable. unfold coerce_basic in H. destruct (is_instance T x c) eqn:E.
     + inversion H; subst. eapply instance_scalar_not_coll; eassumption.
-    + destruct (check_coercible T sac x c); [|discriminate]. apply construct_class in H. destruct H as [Hcls _].
-      destruct (is_coll y) eqn:Ey; [|reflexivity]. apply is_coll_class in Ey. rewrite Hcls in Ey.
-      exfalso. cbn in Hc', Ey. intuition congruence.
-  - unfold coerce_tuple in H.
-    destruct (enter T sac CTuple x) as [cl|] eqn:E; [|discriminate].
-    assert (cl = CTuple) as -> by (eapply (enter_container T WF); [|exact E]; cbn; tauto).
-    destruct (iter x) as [items|]; [|discriminate]. destruct (Nat.eqb _ _); [|discriminate].
-    apply build_items in H. destruct H as [l [Hl Hc]]. cbn in Hc. inversion Hc; subst. cbn.
-    rewrite forallb_forall in Ha. clear E Hc. revert items l Hl.
-    induction IHts as [|p ps Hp Hps IH]; intros items l Hl; cbn in Hl.
-    + inversion Hl; reflexivity.
-    + destruct items as [|i items]; [inversion Hl; reflexivity|].
-      destruct (coerce T W sac p i) as [y|] eqn:E1; [|discriminate].
-      destruct (zip_res _ items) as [ys|] eqn:E2; [|discriminate]. inversion Hl; subst. cbn.
-      rewrite (Hp (Ha p (or_introl eq_refl)) _ _ E1). cbn. eapply IH; [|exact E2].
-      intros q Hq. apply Ha. now right.
-  - unfold coerce_seq in H.
-    destruct (enter T sac CTuple x) as [cl|] eqn:E; [|discriminate].
-    assert (cl = CTuple) as -> by (eapply (enter_container T WF); [|exact E]; cbn; tauto).
-    destruct (iter x) as [items|]; [|discriminate].
-    apply build_items in H. destruct H as [l [Hl Hc]]. cbn in Hc. inversion Hc; subst. cbn.
-    apply map_res_ok in Hl. apply forallb_forall. intros z Hz.
+    + destruct (check_coercible T sac x c); [|discriminate]. apply (construct_class T) in H. destruct H as [Hcls Hbase].
+      destruct (is_coll y) eqn:Ey; [|reflexivity]. exfalso. apply is_coll_shape in Ey.
+      assert (base_class y = c) as Hb.
+      { destruct (class_of_cases T y) as [E'|[n [E' _]]]; [congruence|].
+        rewrite E' in Hcls. subst c. cbn in Hbase. intuition congruence. }
+      rewrite Hb in Ey. cbn in Hc', Ey. intuition congruence.
+  - destruct (coerce_tuple_shape T WF sac _ _ _ H) as [_ [items [l [k [_ [_ [Hz ->]]]]]]]. cbn.
+    apply forallb_forall.
+    assert (Forall (fun z => hashable z = true) l) as HF.
+    { eapply (zip_res_all (coerce T W sac)); [|exact Hz].
+      rewrite forallb_forall in Ha. rewrite Forall_forall in *. intros p Hp x' y' Hc. eapply IHts; eauto. }
+    rewrite Forall_forall in HF. exact HF.
+  - destruct (coerce_seq_shape T WF sac _ _ _ _ H) as [_ [items [l [_ [Hl [[k ->] _]]]]]]. cbn.
+    apply map_res_ok in Hl. apply forallb_forall.
     assert (Forall (fun z => hashable z = true) l) as HF.
     { eapply Forall2_right; [exact Hl|]. intros i z' _ HR. exact (IHa Ha _ _ HR). }
-    rewrite Forall_forall in HF. auto.
-  - destruct fr; [|discriminate]. unfold coerce_seq in H.
-    destruct (enter T sac CFrozenset x) as [cl|] eqn:E; [|discriminate].
-    assert (cl = CFrozenset) as -> by (eapply (enter_container T WF); [|exact E]; cbn; tauto).
-    destruct (iter x) as [items|]; [|discriminate].
-    apply build_items in H. destruct H as [l [Hl Hc]]. cbn in Hc. apply mk_set_class in Hc. subst. reflexivity.
+    rewrite Forall_forall in HF. exact HF.
+  - destruct fr; [|discriminate].
+    destruct (coerce_seq_shape T WF sac _ _ _ _ H) as [_ [items [l [_ [_ [[k ->] _]]]]]]. reflexivity.
   - apply first_ok_ok in H. destruct H as [a [Hin Hc]].
     rewrite forallb_forall in Ha. rewrite Forall_forall in IHts. eapply IHts; eauto.
 Qed.
@@ -561,38 +604,54 @@ Proof. intros H. split; intros ->; cbn in H; intuition discriminate. Qed.
 Lemma enter_static o s v :
   In o origins -> is_base s = false -> is_union s = false ->
   check_type_coercible_gen T false (cls_eqb (origin_of s) o) false (SCls (origin_of s)) o = Ok tt ->
-  conforms T s v -> enter T false o v = Ok o.
+  conforms T s v ->
+  exists inst, enter T false o v = Ok inst /\ (inst = true -> base_class v = o).
 Proof.
   intros Ho Hb Hu Hst Hv. destruct (conforms_coll s v Hb Hu Hv) as [_ [_ [Hbelow _]]].
   destruct (origins_not_any o Ho) as [Hna Hnm].
   unfold enter. destruct (is_instance T v o) eqn:E.
-  - f_equal. apply (is_instance_container T WF); assumption.
-  - assert (check_coercible T false v o = check_type_coercible T false (class_of v) o) as ->.
+  - exists true. split; [reflexivity|]. intros _. rewrite is_instance_sub in E by exact Hna.
+    rewrite <- shape_class. apply h_shape; [apply class_of_value|exact Ho|exact E].
+  - exists false. split; [|discriminate].
+    assert (check_coercible T false v o = check_type_coercible T false (class_of T v) o) as ->.
     { unfold check_coercible. rewrite (h_notfs o Ho). now rewrite andb_false_r. }
     rewrite is_instance_sub in E by exact Hna.
     destruct (cls_eqb (origin_of s) o) eqn:Esame.
     + apply cls_eqb_eq in Esame. rewrite Esame in Hbelow. unfold belowb in Hbelow. rewrite E in Hbelow.
       destruct o; cbn in Hbelow; try discriminate; congruence.
     + pose proof (static_ok_of _ _ _ eq_refl Hst) as Hs.
-      destruct (h_origin _ _ _ (origin_container s Hb Hu) Ho (class_of_value v) Hs Hbelow Esame) as [Hi|Hd].
-      * unfold is_subclass in Hi. pose proof (class_of_not_any v).
-        destruct o; try congruence; destruct (class_of v); try congruence; rewrite Hi in E; discriminate.
-      * unfold dyn_ok in Hd. destruct (check_type_coercible T false (class_of v) o); [reflexivity|discriminate].
+      destruct (h_origin _ _ _ (origin_container s Hb Hu) Ho (class_of_value T v) Hs Hbelow Esame) as [Hi|Hd].
+      * unfold is_subclass in Hi. pose proof (class_of_not_any T v).
+        destruct o; try congruence; destruct (class_of T v); try congruence; rewrite Hi in E; discriminate.
+      * unfold dyn_ok in Hd. destruct (check_type_coercible T false (class_of T v) o); [reflexivity|discriminate].
+Qed.
+
+Lemma keep_nr o v l :
+  In o [CList; CTuple; CSet; CFrozenset] -> base_class v = o ->
+  (o = CSet \/ o = CFrozenset -> forallb hashable l = true) -> NR (keep o v l).
+Proof.
+  intros Ho Hb Hh. unfold keep.
+  destruct Ho as [<-|[<-|[<-|[<-|[]]]]];
+    destruct v as [| | | | | | |f| | |k fr l0|]; try destruct fr; try destruct f; cbn in Hb; try discriminate;
+    try apply NR_ok; rewrite Hh by tauto; apply NR_ok.
 Qed.
 
 Lemma coerce_seq_nr o f v :
-  In o [CList; CTuple; CSet; CFrozenset] -> enter T false o v = Ok o -> iter v = Ok (items_of v) ->
+  In o [CList; CTuple; CSet; CFrozenset] ->
+  (exists inst, enter T false o v = Ok inst /\ (inst = true -> base_class v = o)) ->
+  iter v = Ok (items_of v) ->
   Forall (fun x => NR (f x)) (items_of v) ->
   (o = CSet \/ o = CFrozenset -> forall x y, f x = Ok y -> hashable y = true) ->
   NR (coerce_seq T false o f v).
 Proof.
-  intros Ho He Hi HF Hh. unfold coerce_seq. rewrite He, Hi. unfold build.
+  intros Ho [inst [He Hinst]] Hi HF Hh. unfold coerce_seq. rewrite He, Hi. unfold build.
   destruct (map_res f (items_of v)) as [l|e] eqn:E.
   - assert (o = CSet \/ o = CFrozenset -> forallb hashable l = true) as Hl.
     { intros Hs. apply forallb_forall. intros y Hy. apply map_res_ok in E.
       assert (Forall (fun y => hashable y = true) l) as HF'.
       { eapply Forall2_right; [exact E|]. intros x y' _ HR. exact (Hh Hs _ _ HR). }
       rewrite Forall_forall in HF'. auto. }
+    destruct inst; [apply keep_nr; auto|].
     destruct Ho as [<-|[<-|[<-|[<-|[]]]]]; cbn [construct_container]; try apply NR_ok;
       unfold mk_set; rewrite Hl by tauto; apply NR_ok.
   - intros e' He'. inversion He'; subst. exact (map_res_nr f _ HF _ E).
@@ -611,8 +670,12 @@ Proof.
   destruct (Hi x Hx) as [a [Hin Hconf]]. apply (IHp a x); auto. now apply (forall_res_ok _ _ Hc).
 Qed.
 
-Lemma vstr_not_coll v : is_coll v = true -> is_vstr v = false.
-Proof. destruct v; cbn; try discriminate; reflexivity. Qed.
+Lemma vstr_not_coll v : is_coll v = true -> is_vstr T v = false.
+Proof.
+  intros H. apply coll_class_in in H. unfold is_vstr.
+  rewrite !is_instance_sub by discriminate.
+  rewrite (h_hash _ CStr H ltac:(cbn; tauto)), (h_hash _ CBytes H ltac:(cbn; tauto)). reflexivity.
+Qed.
 
 (* the view check_tuple takes of the source arguments *)
 Lemma tuple_args_inv s args ell args' ell' :
@@ -743,12 +806,14 @@ Proof.
         + intros p Hp. apply (forall_res_ok _ _ H p Hp).
         + eapply Forall_impl; [|exact Hitems]. intros x [a' [[<-|[]] Hx]]. exact Hx.
       - destruct (Nat.eqb _ _); [|discriminate].
-        destruct Hv as [l [-> Hl]]. cbn [items_of] in *.
+        destruct Hv as [_ [g [l [-> Hl]]]]. cbn [items_of] in *.
         eapply zip_nr_fixed; eauto. }
-    unfold coerce_tuple. erewrite enter_static; eauto; [|cbn; tauto]. rewrite Hiter.
+    destruct (enter_static CTuple s v ltac:(cbn; tauto) Hb Hu Hst Hv) as [inst [He Hinst]].
+    unfold coerce_tuple. rewrite He, Hiter.
     rewrite map_length, Hlen, Nat.eqb_refl. unfold build.
-    destruct (zip_res _ (items_of v)) as [l|e] eqn:E; [apply NR_ok|].
-    intros e' He'. inversion He'; subst. now apply Hz.
+    destruct (zip_res _ (items_of v)) as [l|e] eqn:E.
+    + destruct inst; [apply keep_nr; [cbn; tauto|auto|intros [E'|E']; discriminate]|apply NR_ok].
+    + intros e' He'. inversion He'; subst. now apply Hz.
   - (* tuple[pa, ...] *)
     cbn [c21_target_ok] in Hok. cbn [check] in H. cbn [coerce].
     destruct (container_args T CTuple s) as [[args ell]|] eqn:Ec; [|discriminate].
@@ -775,11 +840,10 @@ Proof.
       fold (static_ok T CTuple CDict) in Hx. rewrite h_dict in Hx. discriminate.
     + destruct (check T pk k) as [[]|] eqn:Ek; [|discriminate].
       cbn [scalar_based] in Hs. apply andb_true_iff in Hs. destruct Hs as [Hsk Hsx].
-      destruct Hv as [kv [-> Hkv]]. cbn [arity_ok] in Har. rewrite forallb_forall in Har.
+      destruct Hv as [Hinst [g [kv [-> Hkv]]]]. cbn [arity_ok] in Har. rewrite forallb_forall in Har.
       unfold coerce_dict.
-      assert (enter T false CDict (VDict kv) = Ok CDict) as ->.
-      { unfold enter. rewrite is_instance_sub by discriminate. pose proof (sub_refl_value T WF (VDict kv)) as Hr.
-        cbn [class_of] in *. now rewrite Hr. }
+      assert (enter T false CDict (VDict g kv) = Ok true) as ->.
+      { unfold enter. rewrite <- py_isinstance_is_instance. now rewrite Hinst. }
       assert (NR (dict_res (coerce T W false pk) (coerce T W false pv) kv [])) as Hd.
       { apply dict_res_nr. rewrite Forall_forall in *. intros [a b] Hp. destruct (Hkv _ Hp) as [Ha Hb']. cbn in *.
         specialize (Har _ Hp). cbn in Har. apply andb_true_iff in Har. destruct Har as [Ar1 Ar2].
@@ -857,7 +921,7 @@ Proof.
     assert (NR (wrap1 (coerce T W false pa v))) as Hw.
     { unfold wrap1. destruct (coerce T W false pa v) as [y|e]; [apply NR_ok|].
       intros e' He'. inversion He'; subst. now apply Hn. }
-    destruct (is_vstr v); [exact Hw|].
+    destruct (is_vstr T v); [exact Hw|].
     destruct (match iter v with Ok items => map_res (coerce T W false pa) items | Err e => Err e end) as [l|e] eqn:E;
       [apply NR_ok|].
     destruct e; [exact Hw| |apply NR_unm].
